@@ -479,6 +479,7 @@ def net_spec(
     tuples=False,
     wide_labels=False,
     float_ids=False,
+    big_ids=False,
 ):
     cls = cls or draw(st.sampled_from(["H", "DH", "SC"]))
     kind = kind or draw((spec_kinds if wide_labels == "mixed" else spec_kinds_unmixed) if wide_labels else kinds)
@@ -496,6 +497,8 @@ def net_spec(
         scheme = "gap"
     if float_ids and ids is None and draw(st.integers(0, 5)) == 0:
         scheme = "float"  # integer-valued floats: the same dict keys as the ints, but not instances of int
+    if big_ids and ids is None and draw(st.integers(0, 7)) == 0:
+        scheme = "big"  # consecutive ints from 2**53 on: float() rounds every second one (IDs from a hash or a nanosecond clock)
     if scheme == "auto":
         eids = [None] * k
     elif scheme == "perm":
@@ -504,6 +507,8 @@ def net_spec(
         eids = draw(st.lists(st.integers(0, 30), min_size=k, max_size=k, unique=True))
     elif scheme == "str":
         eids = draw(st.lists(st.sampled_from(["x", "y", "e1", "e2", "e10", "3", "0", "k", "m", "q"]), min_size=k, max_size=k, unique=True))
+    elif scheme == "big":
+        eids = [2**53 + i for i in range(k)]
     elif scheme == "float":
         eids = [float(i) for i in draw(st.permutations(list(range(k))))]
     elif scheme == "zero-desc":
